@@ -2,8 +2,8 @@
    Nothing but statements, closed by [exact], each followed by Print Assumptions. *)
 From Coq Require Import ZArith QArith List Bool.
 From RV Require Import Base.Wire Base.Text Lang.PyAst Lang.PySem Gen.SafeCasts Lang.ConstEval Lang.ConstEnv
-  Lang.ConstFlow Lang.ConstTuple Lang.ConstNodes Proofs.ConstEvalP Proofs.ConstEnvP Proofs.ConstEnvFreshP Proofs.ConstEnvSplitP
-  Proofs.ConstFlowP Proofs.ConstTupleP Proofs.ConstNodesP.
+  Lang.ConstFlow Lang.ConstTuple Lang.ConstNodes Lang.ConstCall Proofs.ConstEvalP Proofs.ConstEnvP Proofs.ConstEnvFreshP Proofs.ConstEnvSplitP
+  Proofs.ConstFlowP Proofs.ConstTupleP Proofs.ConstNodesP Proofs.ConstCallP.
 Import ListNotations.
 Open Scope Z_scope.
 
@@ -392,3 +392,58 @@ Example C03_rhs_len_is_a_fold_site :
   firmware_outputs (w_rhs_len [SAssign n_s (EStr [97;98;99;100])]) [0%nat] = Some [VInt 3].
 Proof. exact rhs_len_fold_site. Qed.
 Print Assumptions C03_rhs_len_is_a_fold_site.
+
+(* ---- calls of a function that WRITES module-level names (Lang/ConstCall.v):
+       prefix; def f(): body; first; f(); seg_1; f(); seg_2; ... f(); seg_n
+   The names the body writes ([vol] = ctx["_function_written"]) are unknown in the calling scope from the def on, and NO
+   statement form of the calling scope makes one of them known again: plain assignment, augmented assignment, every
+   target of a tuple assignment (temporaries first), append / remove, assignments inside if / else / try, while and for
+   bodies (and their loop variables) at any depth - for every block, every dict, every store *)
+Theorem C03_volatile_never_known : forall vol b te st te' st' res f,
+  tblock vol b te st = Some (te', st', res, f) -> vol_unknown vol te -> vol_unknown vol te'.
+Proof. exact vol_unknown_block. Qed.
+Print Assumptions C03_volatile_never_known.
+
+(* hence every fold that follows a call reads the run-time value: for any number of calls, whatever re-binds the
+   written names between them, on every control-flow path, the firmware (the residual blocks, the residual body inlined
+   at each call) outputs what Python outputs (the body run at each call in the module state of that moment) - inside the
+   guard calls_ok: the single-statement side conditions of every block, nothing else *)
+Theorem C03_calls_partial : forall prefix body first rest orc out,
+  calls_ok prefix body first rest = true ->
+  python_calls_outputs prefix body first rest orc = Some out ->
+  firmware_calls_outputs false prefix body first rest orc = Some out.
+Proof. exact calls_sound. Qed.
+Print Assumptions C03_calls_partial.
+
+(* pat = [1, 0]; def grow(): pat.append(1); grow(); pat, gap = [1, 0, 1], 50; grow(); mon.write(len(pat)) prints 4 - the
+   length is read at run time; with led.flash_pattern(pat) in place of the len the script is rejected (Python flashes
+   1, 0, 1, 1: nothing to bake) *)
+Example C03_call_after_tuple_rebind :
+  calls_ok w_pat0 w_grow [] [w_tuple_rebind; [SObs (OLen n_pat)]] = true /\
+  python_calls_outputs w_pat0 w_grow [] [w_tuple_rebind; [SObs (OLen n_pat)]] [] = Some [VInt 4] /\
+  firmware_calls_outputs false w_pat0 w_grow [] [w_tuple_rebind; [SObs (OLen n_pat)]] [] = Some [VInt 4] /\
+  option_map (fun r => match r with (_, _, _, rs, _) => rs end) (tcalls false w_pat0 w_grow [] [w_tuple_rebind; [SObs (OLen n_pat)]]) =
+    Some [w_tuple_rebind; [SObs (OLen n_pat)]] /\
+  tcalls false w_pat0 w_grow [] [w_tuple_rebind; [SObs (OFlash n_pat)]] = None /\
+  python_calls_outputs w_pat0 w_grow [] [w_tuple_rebind; [SObs (OFlash n_pat)]] [] = Some [VList [VInt 1; VInt 0; VInt 1; VInt 1]].
+Proof. exact call_after_tuple_rebind. Qed.
+Print Assumptions C03_call_after_tuple_rebind.
+
+Example C03_calls_nonvacuous :
+  calls_ok w_pat0 w_grow [] w_forms = true /\
+  python_calls_outputs w_pat0 w_grow [] w_forms [1%nat; 2%nat] = Some [VInt 5; VInt 2; VInt 3] /\
+  python_calls_outputs w_pat0 w_grow [] w_forms [0%nat; 0%nat] = Some [VInt 5; VInt 6; VInt 7] /\
+  firmware_calls_outputs false w_pat0 w_grow [] w_forms [0%nat; 0%nat] = Some [VInt 5; VInt 6; VInt 7].
+Proof. exact call_forms_nonvacuous. Qed.
+Print Assumptions C03_calls_nonvacuous.
+
+(* the re-forget is forced, and the transpiler omits it inside function bodies (`if scope != "function"`): the same
+   calling sequence in the body of another function - def use(): global pat; pat = [1, 0, 1]; grow(); mon.write(len(pat)) -
+   bakes len(pat) = 3 where Python prints 4 (finding F-C03-stale-after-call-in-function) *)
+Theorem C03_call_in_function_refuted :
+  firmware_calls_outputs true w_pat0 w_grow [SAssign n_pat (EList [EInt 1; EInt 0; EInt 1])] [[SObs (OLen n_pat)]] [] = Some [VInt 3] /\
+  python_calls_outputs w_pat0 w_grow [SAssign n_pat (EList [EInt 1; EInt 0; EInt 1])] [[SObs (OLen n_pat)]] [] = Some [VInt 4] /\
+  firmware_calls_outputs false w_pat0 w_grow [SAssign n_pat (EList [EInt 1; EInt 0; EInt 1])] [[SObs (OLen n_pat)]] [] = Some [VInt 4] /\
+  calls_ok w_pat0 w_grow [SAssign n_pat (EList [EInt 1; EInt 0; EInt 1])] [[SObs (OLen n_pat)]] = true.
+Proof. exact call_in_function_refuted. Qed.
+Print Assumptions C03_call_in_function_refuted.
